@@ -382,7 +382,7 @@ func readerOutcome(ex *document.DocumentEx, err error) string {
 // one goroutine per op) on a fresh shared reader.Reader + chip.
 func execReader(f *fixture, ops []rop, order []int, concurrent bool, procs int) (outs []string, overlapped bool, linkOverlap int) {
 	p := f.p
-	p2, _ := persona.Build(func() persona.Opts { o := p.Opts; o.DGs = []int{2, 11}; o.MaxImage = 300; return o }())
+	p2, _ := persona.Build(func() persona.Opts { o := p.Opts; o.DGs = []int{2, 7, 11}; o.MaxImage = 300; return o }())
 	chip := p2.NewChip()
 	link := &yieldingLink{inner: chip}
 	nfc := iso7816.NewNfcSession(link)
@@ -766,7 +766,7 @@ func (g *gateLink) Transceive(cla int, ins int, p1 int, p2 int, data []byte, le 
 // computed sequentially on fresh readers.
 func TestSettersDuringRead(t *testing.T) {
 	f := getFixture(t)
-	p2, err := persona.Build(func() persona.Opts { o := f.p.Opts; o.DGs = []int{2, 11}; o.MaxImage = 300; return o }())
+	p2, err := persona.Build(func() persona.Opts { o := f.p.Opts; o.DGs = []int{2, 7, 11}; o.MaxImage = 300; return o }())
 	if err != nil {
 		evid.Infra(t, "persona: %v", err)
 	}
